@@ -68,10 +68,15 @@ def check(chk: Check) -> None:
         jobs.append(j)
     jobs += extra_jobs()
     jobs = fit_presets(jobs)
+    from .. import tunables
+
+    inv = tunables.inventory(chk.program)
+    hit: set[str] = set()
     for res in pmap(pipejob.run, jobs):
         if res is None:
             continue
         chk.functions.update(res["funcs"])
+        hit.update(res.get("tunables_hit", ()))
         jb = res["job"]
         cfg = f"{jb['integ']} physical={jb['physical']} preset={jb.get('preset')} delimited={jb.get('delimited')} frame_size={jb.get('frame_size')} logical={jb.get('logical')} via={jb.get('via')}"
         for pi, rec in enumerate(res["paths"]):
@@ -104,3 +109,17 @@ def check(chk: Check) -> None:
                     chk.ok(r4, inst, {"graph_starts": runs})
                 else:
                     chk.fail(r4, inst, "pyjelly.integrations.generic.serialize.split_to_graphs", f"{rec['ref_graph_starts']} graph starts written for {runs} runs of equal graph names ({jb['name']}, {cfg})")
+            elif jb["physical"] == 3 and jb["integ"] == "rdflib" and jb.get("single_run") and jb.get("via") == "generator":
+                # the rdflib writer regroups a quad generator through a Dataset (C15's known finding) and may append an
+                # empty default graph; on inputs in which every graph name forms ONE run the non-empty graphs written
+                # must still be one per run
+                names = []
+                for item in res["expected_set"]:
+                    if item[4] not in names:
+                        names.append(item[4])
+                got = pipejob.nonempty_graph_starts(rec["frames"])
+                if got == len(names):
+                    chk.ok(r4, inst, {"nonempty_graph_starts": got})
+                else:
+                    chk.fail(r4, inst, "pyjelly.integrations.rdflib.serialize.graphs_stream_frames", f"{got} non-empty graphs written for {len(names)} runs of equal graph names ({jb['name']}, {cfg})")
+    chk.note(f"tunable integer constants of the source (scaled to {tunables.SCALE} in the [tunables=...] jobs): {inv['tunable']}; reached: {sorted(hit)}; specification constants kept: {inv['spec']}")
